@@ -78,7 +78,15 @@ where
 
                     // First try decode from the buffer
                     let inner = buf.inner();
-                    if let Some(frame) = this.framer.extract(inner)? {
+                    let extracted = match this.framer.extract(inner) {
+                        Ok(extracted) => extracted,
+                        Err(e) => {
+                            // Keep the state consistent: the stream may be polled again.
+                            this.read_state.inner = StateInner::Idle(Some((io, buf)));
+                            return Poll::Ready(Some(Err(e.into())));
+                        }
+                    };
+                    if let Some(frame) = extracted {
                         let (begin, end) = (inner.begin(), inner.end());
                         let slice = frame.slice(buf.take_inner()).flatten(); // focus on only the payload
                         let decoded = this.codec.decode(&slice);
